@@ -46,6 +46,10 @@ CHECKS = {
          "Held on every explored tree and start node: every traversal entry point and all 12 axes are compared, for every node incl. attribute and namespace nodes, with lists computed from handles recorded at creation; exhaustive over all 65 ordered shapes with <= 6 nodes x kinds x decorations, plus random trees, deep chains, wide fans and re-parsed trees; exploration, not proof.",
          "Iterators are consumed with a bound (2n+8); for attribute/namespace start nodes only the entry points whose meaning the statement fixes are judged.",
          "ground-truth comparison of every iterator (bounded consumption)"),
+ "C09": ("DESIGN.md §5 C09",
+         "Held on every explored node: at every node (elements, attribute nodes, namespace nodes, leaves) of trees with arbitrary declaration layouts the in-scope set, namespace_for_prefix / is_prefix_defined for 8 prefixes, prefix_for_namespace for 7 namespaces, unresolved_namespaces, inherited_prefixes and the qualified names from node_name_ref / name_ref / full_name are compared with a nearest-declaration-wins walk over the abstract tree; exploration, not proof.",
+         "unresolved_namespaces / inherited_prefixes only as pinned down in DESIGN §5 C09; one open finding (no-namespace element under a default binding) suppressed by exact signature.",
+         "reference-model monitor (namespace scope) at every node"),
  "C11": ("DESIGN.md §5 C11",
          "Held on every explored update history: after every one of 1-40 map-style / node-style updates every accessor of the read-only and the mutable view of the attribute and namespace maps of two sibling elements is compared with an ordered-map model, return values included, and the serialised start tags are read back by an independent XML reader; exploration, not proof.",
          "Key pools of 4 names / 4 prefixes; histories <= 40 steps.",
